@@ -159,6 +159,7 @@ func (p *PackageProgress) stageStreamData() error {
 				keys = append(keys, key)
 			}
 			sort.Ints(keys)
+			pack.StreamBody = nil // 文件完成后又收到重复的数据块时会再次组装 不能在上一次的内容后面继续追加
 			for _, key := range keys {
 				pack.StreamBody = append(pack.StreamBody, pack.OffsetDataRecord[key]...)
 			}
